@@ -410,6 +410,10 @@ def _run_one(prog: Program, report: Report, g) -> int:
                         if rets and all(any(rx.search(x) for x in tx) for tx in rtexts):
                             report.ob(g.rule, g.fn, f"{g.why.split(';')[0]}: [{text[:60]}] returns through the extracted helper {hs[0].name}, whose returns have the required form")
                             continue
+                        if rets and not any(any(rx.search(x) for x in tx) for tx in rtexts):
+                            # no return of the helper has the form at all: the value really is of another shape
+                            report.violate(g.rule, v.fn, t, f"{g.why.split(';')[0]}: {text[:100]}", f"{g.why}; the value comes from the new helper {hs[0].name}, none of whose returns has the form (they are {[tx[0][:40] for tx in rtexts][:3]})", what=f"/{g.target}/ has form /{g.form}/")
+                            continue
                         raise AnalysisError(f"{g.rule}: {g.fn}: `{text[:60]}` is produced by {hs[0].name}, a helper the reviewed tree did not have, whose returns found 0 time(s) in the required form (restructured)")
                 if not any(rx.search(x) for x in texts):
                     loose = loosen(v, g.form)
